@@ -249,7 +249,7 @@ def classes():
             return True
 
     def gen_source(world, side, uid, dirn, tag, els, end, err_at=None, asynchronous=False, awaits=0,
-                   none_for_empty=False):
+                   none_for_empty=False, pace=0):
         """StreamFromGenerator / StreamFromAsyncGenerator over a recording generator."""
 
         runs = [0]
@@ -305,7 +305,13 @@ def classes():
                     ev('gen_finally')
 
             cls = L['StreamFromAsyncGenerator']
-        return cls(factory, on_cancel=lambda: ev('src_on_cancel'), on_complete=lambda: ev('src_on_complete'))
+        kw = {}
+        if pace:
+            # a paced publisher: elements pulled from the generator wait in the publisher's queue, one handed to the
+            # subscriber every `pace` (virtual) milliseconds
+            from datetime import timedelta
+            kw['delay_between_messages'] = timedelta(milliseconds=pace)
+        return cls(factory, on_cancel=lambda: ev('src_on_cancel'), on_complete=lambda: ev('src_on_complete'), **kw)
 
     def rx_source(world, side, uid, dirn, tag, els, end, version=4, backpressure=False, err_at=None,
                   none_for_empty=False):
